@@ -598,7 +598,7 @@ impl Prop for C18 {
         "C18"
     }
     fn phases(&self, tier: Tier) -> Vec<PhaseSpec> {
-        vec![ph("conversion-table", tier.pick(6_000, 2_000_000)), ph("number-operator-table", tier.pick(6_000, 2_000_000))]
+        vec![ph("conversion-table", tier.pick(6_000, 2_000_000)), ph("number-operator-table", tier.pick(6_000, 2_000_000)), ph("python-facing methods: conversions and refusal of mixed orders", tier.pick(4_000, 300_000))]
     }
     fn exhaustive(&self, _tier: Tier) -> bool {
         false
@@ -625,6 +625,9 @@ impl Prop for C18 {
                 v.push(format!("sign-op:{}:abs:{}", k, r));
             }
         }
+        v.push("py:conversions".to_string());
+        v.push("py:Dual:__add__".to_string());
+        v.push("py:Dual2:__add__".to_string());
         v
     }
     fn min_evaluations(&self, tier: Tier) -> u64 {
@@ -637,6 +640,16 @@ impl Prop for C18 {
         vec!["the contained-type operations themselves are judged by C01/C02/C19".into(), "a panic or an Err both count as refusal for Dual x Dual2 pairings".into()]
     }
     fn run_case(&mut self, ctx: &mut Ctx, phase: usize, idx: u64, rng: &mut Rng) {
+        if phase == 2 {
+            super::pylayer::dual_conversions(ctx, "C18", rng);
+            if idx % 2 == 0 {
+                super::pylayer::dual_layer(ctx, "C18", rng);
+            } else {
+                super::pylayer::dual2_layer(ctx, "C18", rng);
+            }
+            ctx.distinct(hash_u64s(&[0x9e, idx]));
+            return;
+        }
         if phase == 0 {
             check_conversions(ctx, rng);
         } else {
